@@ -39,6 +39,7 @@ func writeReplay(cfg *Config, ld *Loaded, name string, o *Obligation) string {
 	}
 	data, _ := json.MarshalIndent(rf, "", " ")
 	os.WriteFile(path, data, 0o644)
+	pendingReplays[path] = o
 	return path
 }
 
